@@ -66,7 +66,7 @@ def objective_terms(at, P, ps, pg, ins, measurables):
     return terms
 
 
-def budget_problem(at, model="udt", pops=None, single_year=False, seed=1, maxiters=5, upper=3.0, dt=None):
+def budget_problem(at, model="udt", pops=None, single_year=False, seed=1, maxiters=5, upper=3.0, dt=None, two_years=False):
     from atomica.optimization import SpendingAdjustment, TotalSpendConstraint, Optimization, MaximizeMeasurable, MinimizeMeasurable
 
     P = at.demo(model, do_run=False)
@@ -75,12 +75,18 @@ def budget_problem(at, model="udt", pops=None, single_year=False, seed=1, maxite
     P.settings.update_time_vector(end=2025.0, dt=dt)
     progs = [p for p in pg.programs.values() if p.spend_data.has_data and float(p.spend_data.interpolate(start, method="previous")[0]) > 0][:3]
     ins = at.ProgramInstructions(start_year=start, alloc=pg)
-    adjs = [at.SpendingAdjustment(p.name, start, "rel", 0.25, upper) for p in progs]
+    years = [start]
+    if two_years:  # spending is adjusted in two years in which the caller's instructions differ (no explicit initial values: they are read from the instructions)
+        years = [start, start + 2.0]
+        for p in progs:
+            ins.alloc[p.name].insert(start + 2.0, 2.0 * float(ins.alloc[p.name].get(start)))
+    adjs = [at.SpendingAdjustment(p.name, years if two_years else start, "rel", 0.25, upper) for p in progs]
     comp = [c for c in P.framework.comps.index if P.framework.comps.at[c, "is sink"] != "y" and P.framework.comps.at[c, "is source"] != "y" and P.framework.comps.at[c, "is junction"] != "y"][-1]
     t = [2020.0] if single_year else [2018.0, 2021.0]
     meas = MaximizeMeasurable(comp, t, pop_names=pops)
     opt = Optimization(name="o", adjustments=adjs, measurables=meas, constraints=TotalSpendConstraint(), maxiters=maxiters, method="asd")
     measurables = [(comp, t, pops, -1.0)]
+    opt._verif_years = years
     return P, ps, pg, ins, opt, measurables, [p.name for p in progs], start
 
 
@@ -189,7 +195,7 @@ def hard_target_problems(at, thorough):
                     yield dict(model=model, target=tname, output=comp, t=t, pops=sel), P, ps, pg, ins0, opt, x0, names, start, finite, judge
 
 
-def calib_problem(at, model="udt", dt=None):
+def calib_problem(at, model="udt", dt=None, late_start=False):
     """A calibration problem that is not already solved at the start: the library databooks mostly hold first-year data (which the
     initialisation reproduces), so two later data points, a few percent off the uncalibrated model, are added to every target."""
     P = at.demo(model, do_run=False)
@@ -206,9 +212,20 @@ def calib_problem(at, model="udt", dt=None):
     for i, (var, pop, _, _) in enumerate(measurables):
         out = res.model.get_pop(pop).get_variable(var)[0]
         ts = P.data.tdve[var].ts[pop]
-        for year, factor in ((t0 + 3.0, 1.04 - 0.03 * i), (t0 + 4.0, 0.97 + 0.02 * i)):
+        for year, factor in ((t0 + 1.0, 1.25), (t0 + 3.0, 1.04 - 0.03 * i), (t0 + 4.0, 0.97 + 0.02 * i)) if late_start else ((t0 + 3.0, 1.04 - 0.03 * i), (t0 + 4.0, 0.97 + 0.02 * i)):
             ts.insert(year, float(np.interp(year, out.t, out.vals)) * factor)
+    if late_start:  # the simulated period starts after the first data year: data outside the simulated period is not part of the objective
+        P.settings.update_time_vector(start=t0 + 2.0)
     return P, ps, adjustables, measurables
+
+
+def library_calib_objective(P, ps, adjustables, measurables):
+    """The objective the library's calibration evaluates for parameter set ps."""
+    import sciris as sc
+    from atomica.calibration import _calculate_objective
+
+    y = [float(ps.pars[a[0]].y_factor[a[1]]) for a in adjustables]
+    return float(_calculate_objective(y, adjustables, measurables, sc.dcp(ps), P))
 
 
 def calib_terms(at, P, ps, measurables):
@@ -238,7 +255,7 @@ def run(prop, tier):
     observed_restore = {}
     try:
         # ---------------- budget optimisation: reference runs, then a failure at every evaluation of the reference run
-        problems = [dict(model="udt", pops=None, single_year=False), dict(model="udt", pops=["adults"], single_year=True)]
+        problems = [dict(model="udt", pops=None, single_year=False), dict(model="udt", pops=["adults"], single_year=True), dict(model="udt", pops=None, single_year=False, two_years=True)]
         if thorough:
             problems += [dict(model="hiv", pops=None, single_year=False), dict(model="tb_simple", pops=None, single_year=True)]
         seeds = [1, 2, 3, 4, 5, 6] if thorough else [1, 2, 3]
@@ -258,11 +275,12 @@ def run(prop, tier):
                         continue
                     t0_terms = objective_terms(at, P, ps, pg, ins, measurables)
                     t1_terms = objective_terms(at, P, ps, pg, ret, measurables)
-                    x0 = [float(ins.alloc[p].get(start)) for p in prognames]
-                    x1 = [float(ret.alloc[p].get(start)) for p in prognames]
+                    yrs_ = opt._verif_years
+                    x0 = [float(ins.alloc[p].get(y_)) for y_ in yrs_ for p in prognames]
+                    x1 = [float(ret.alloc[p].get(y_)) for y_ in yrs_ for p in prognames]
                     records.append(dict(id=rid, outcome=outcome, before=before, after=after, t0=FX.fixseq(t0_terms), t1=FX.fixseq(t1_terms),
                                         vals=FX.fixseq(x1), lows=FX.fixseq([0.25 * v for v in x0]), highs=FX.fixseq([3.0 * v for v in x0]),
-                                        total0=FX.fix(sum(x0)), total1=FX.fix(sum(x1)), hastotal=True, haslib=True,
+                                        total0=FX.fix(sum(x0)), total1=FX.fix(sum(x1)), hastotal=True, haslib=True,  # (with two adjusted years: both years' totals are kept, hence their sum)
                                         lib0=FX.fix(library_objective(at, P, ps, pg, ins, opt, ins)), lib1=FX.fix(library_objective(at, P, ps, pg, ins, opt, ret))))
                     index[rid] = dict(label=label, evaluations=K, crash_at=None, f0=sum(t0_terms), f1=sum(t1_terms), x0=x0, x1=x1)
                     rid += 1
@@ -317,9 +335,13 @@ def run(prop, tier):
             nhard += 1
         cov["hard_target_problems"] = nhard
         # ---------------- calibration
-        for seed in seeds:
-            P, ps, adjustables, measurables = calib_problem(at)
-            label = dict(kind="calibration", entry="Project.calibrate", seed=seed)
+        for seed in seeds + [seeds[0]]:
+            late = seed == seeds[0] and "late_done" not in cov and "first_done" in cov
+            cov["first_done"] = True
+            if late:
+                cov["late_done"] = True
+            P, ps, adjustables, measurables = calib_problem(at, late_start=late)
+            label = dict(kind="calibration", entry="Project.calibrate", seed=seed, simulation_starts_after_first_data_year=late)
             for maxiters in ([1, 2, 3, 4, 6, 12] if not thorough else [1, 2, 3, 4, 5, 6, 8, 12, 25]):
                 before = caller_digest(P, ps, None, None)
                 cnt.n = 0
@@ -330,7 +352,8 @@ def run(prop, tier):
                 t1_terms = calib_terms(at, P, newps, measurables)
                 vals = [float(newps.pars[a[0]].y_factor[a[1]]) for a in adjustables]
                 records.append(dict(id=rid, outcome="returned", before=before, after=after, t0=FX.fixseq(t0_terms), t1=FX.fixseq(t1_terms), vals=FX.fixseq(vals),
-                                    lows=FX.fixseq([a[2] for a in adjustables]), highs=FX.fixseq([a[3] for a in adjustables]), total0=FX.fix(0.0), total1=FX.fix(0.0), hastotal=False))
+                                    lows=FX.fixseq([a[2] for a in adjustables]), highs=FX.fixseq([a[3] for a in adjustables]), total0=FX.fix(0.0), total1=FX.fix(0.0), hastotal=False,
+                                    haslib=True, lib0=FX.fix(library_calib_objective(P, ps, adjustables, measurables)), lib1=FX.fix(library_calib_objective(P, newps, adjustables, measurables))))
                 index[rid] = dict(label=dict(maxiters=maxiters, **label), evaluations=K, f0=sum(t0_terms), f1=sum(t1_terms), y_factors=vals)
                 rid += 1
             ks = range(1, K + 1) if thorough else sorted(set(list(range(1, 7)) + [K]))
